@@ -377,6 +377,9 @@ class UtilityMixin(Generic[_T]):
         See Also:
             - :meth:`do_action`
         """
+        if isinstance(on_next, abc.ObserverBase):
+            # same arguments as the operator of the same name: ops.do(observer)
+            return self._as_observable().pipe(ops.do(on_next))
         return self.do_action(on_next, on_error, on_completed)
 
     def do_while(self, condition: typing.Predicate[Observable[_T]]) -> Observable[_T]:
